@@ -88,10 +88,12 @@ def main():
         meta = r["meta"]
         u = next(x for x in units if x.name == r["unit"])
         failing_labels = {}
+        implied_props = {}
         for f in r["failures"]:
             labs = [l for l in f["labels"] if l != "VX.canary"]
             if not labs:
-                labs = [f"{f['fn']}.total"] + list(f.get("implied_labels", []))
+                labs = [f"{f['fn']}.total"]
+                implied_props.setdefault(f"{f['fn']}.total", set()).update(p for l in f.get("implied_labels", []) for p in u.labels.get(l, {}).get("props", []))
             for l in labs:
                 failing_labels.setdefault(l, []).append(f)
         # labelled obligations of this property
@@ -111,11 +113,11 @@ def main():
         # implicit per-function obligations (panic-freedom, arithmetic, termination, callee preconditions): C07
         for fr in meta["verified"]:
             total_label = f"{fr['qual']}.total"
-            if prop == "C07" or prop in fr.get("props", []):
+            if prop == "C07" or prop in fr.get("props", []) or prop in implied_props.get(total_label, ()):
                 fn_count += 1
                 obligations += 1
                 if total_label in failing_labels:
-                    failed.append(dict(unit=r["unit"], fs=r["fs"], label=total_label, text=f"{fr['qual']} ({fr['file']}): no panic / overflow / non-termination / callee precondition failure",
+                    failed.append(dict(unit=r["unit"], fs=r["fs"], label=total_label, text=f"{fr['qual']} ({fr['file']}): body obligations (no panic / overflow / non-termination / callee precondition / proof step); a failure here leaves the function's contract unestablished",
                                        diag=failing_labels[total_label][0], res=r))
                 else:
                     discharged += 1; fn_ok += 1
